@@ -48,7 +48,12 @@ class MergeSuite(Suite):
         tab = {}
         pr = []
         for p in pouts:
-            cells = read_cells(p)
+            if p.endswith(".csv"):
+                import csv as _csv
+                with open(p, newline="") as fh:
+                    cells = list(_csv.reader(fh, delimiter=","))
+            else:
+                cells = read_cells(p)
             h = [x.lower() for x in cells[0]]
             cols = (h.index("psmid"), h.index("peptide"), h.index("score"), h.index("posterior_error_prob"))
             for r in cells[1:]:
